@@ -141,3 +141,40 @@ def mismatch_paths(records):
         if isinstance(r.msg, ManifestMismatch):
             out.append(r.msg.path)
     return out
+
+
+def spell(root, sub, spelling):
+    """Command-line spelling of directory @sub of the tree at @root.
+    Returns (argument, cwd or None)."""
+    full = os.path.join(root, sub) if sub else root
+    if spelling == 'abs-slash':
+        return full + '/', None
+    if spelling in ('rel', 'rel-slash') and sub.startswith('-'):
+        spelling = 'rel-dot'        # else argparse takes it for an option
+    if spelling == 'rel':
+        return (sub or '.'), root
+    if spelling == 'rel-dot':
+        return './' + sub if sub else './', root
+    if spelling == 'rel-slash':
+        return (sub + '/') if sub else './/', root
+    if spelling == 'from-inside':
+        return '.', full
+    return full, None
+
+
+def throw(e):
+    raise e
+
+
+def junk_manifest_above(root, subs):
+    import refmanifest as R
+    for sub in subs:
+        parts = sub.split('/') if sub else []
+        for i in range(1, len(parts) + 1):
+            p = os.path.join(root, *parts[:i], 'Manifest')
+            if os.path.isfile(p):
+                try:
+                    R.parse_strict(R.read_manifest_file(p))
+                except Exception:
+                    return True
+    return False
